@@ -86,8 +86,9 @@ class Row:
 
 
 class ListenerModel:
-    def __init__(self, repo: Repo):
+    def __init__(self, repo: Repo, upper: bool = False):
         self.repo = repo
+        self.upper = upper
         self.cls = roles.aggregator_class(repo)
         self.roles = roles.listener_lists(repo, self.cls)
         ci = repo.cls(self.cls)
@@ -114,7 +115,8 @@ class ListenerModel:
         return ks
 
     def _evaluator(self, k: str) -> Evaluator:
-        raw = k.upper()      # the command as written: upper case, so that a missing case fold is visible
+        # the command as written: upper case in the case-sensitive model, so that a missing case fold is visible
+        raw = k.upper() if self.upper else k
 
         def rewrite(t):
             # ctx.Identifier().getText()  ->  the command name as written
@@ -319,10 +321,12 @@ def _short(t) -> str:
     return s.replace("ctx.single_argument()", "args").replace("<listcomp param.getText() for param in args>", "texts(args)")[:40]
 
 
-_models: Dict[str, ListenerModel] = {}
+_models: Dict[Tuple[str, bool], ListenerModel] = {}
 
 
-def model(repo: Repo) -> ListenerModel:
-    if repo.root not in _models:
-        _models[repo.root] = ListenerModel(repo)
-    return _models[repo.root]
+def model(repo: Repo, upper: bool = False) -> ListenerModel:
+    """upper=True: command names are modelled as written in upper case (C02/C05: letter case must not matter);
+    upper=False: already lower case (all other properties, which do not range over letter case)."""
+    if (repo.root, upper) not in _models:
+        _models[(repo.root, upper)] = ListenerModel(repo, upper)
+    return _models[(repo.root, upper)]
